@@ -52,7 +52,7 @@ fn gate(sh: &Shared, t: usize) {
 }
 
 fn default_tree(m: &Memfs) {
-    m.mkdir_p("/a").unwrap();
+    m.mkdir_p("/a/c").unwrap();
     m.write_all("/f", b"0").unwrap();
 }
 
@@ -82,6 +82,9 @@ fn alphabet() -> Vec<Value> {
         call("cwd", "", ""),
         call("mode", "/f", ""),
         call("readlink_abs", "/l", ""),
+        call("paths", "/a", ""),
+        call("all_paths", "/", ""),
+        call("files", "/", ""),
     ]
 }
 
@@ -300,6 +303,12 @@ fn main() {
                 }
                 total += explore(&sh, &prog, &mut out, pid, &pr, arg_u64("cap", 3000) as usize);
             }
+        },
+        "prog" => {
+            // one given program (JSON array of arrays of call indices into the alphabet): all its interleavings
+            let spec: Vec<Vec<usize>> = serde_json::from_str(&arg_or("prog", "[[0],[1]]")).expect("--prog JSON");
+            let prog: Vec<Vec<Value>> = spec.iter().map(|t| t.iter().map(|&i| alpha[i].clone()).collect()).collect();
+            total += explore(&sh, &prog, &mut out, 1, &pr, arg_u64("cap", 20000) as usize);
         },
         "stress" => {
             // free running threads; every critical section stamped under the lock; one record for the whole run
